@@ -4,6 +4,7 @@ Property theorems for Sokoban (helper lemmas and proofs in Env/Sokoban/Lemmas.le
 actions 0..3.  Sokoban has no action mask (no C04).
 -/
 import JumanjiModel.Env.Sokoban.Lemmas
+import JumanjiModel.Env.Sokoban.BoundsLemmas
 open Jm Jx Sokoban
 
 namespace Props.C05
@@ -83,3 +84,24 @@ namespace Props.C12
 theorem sokoban_obs_faithful (rnd : Rat → Rat) (cfg : Cfg) (s : State) (a : Int) :
     (step rnd cfg s a).2.obs = observe (step rnd cfg s a).1 := Sokoban.obs_faithful rnd cfg s a
 end Props.C12
+
+namespace Props.C01
+/-- the reset observation (the generator's state `g`, `restart`) has every leaf inside the interval
+`obsBounds cfg` lists for it: both planes of `grid` in `[0, 4]`, `step_count = 0 ≤ time_limit`.
+Hypotheses: the generated board is consistent and its counter starts at 0. -/
+theorem sokoban_reset_obs_in_bounds (cfg : Cfg) (g : State) (hc : Consistent cfg.n g) (h0 : g.stepCount = 0)
+    (htl : 0 ≤ cfg.timeLimit) : ObsInBounds cfg (Sokoban.reset g).2.obs :=
+  Sokoban.reset_obs_in_bounds cfg g hc h0 htl
+
+/-- every step taken from a consistent state of a running episode (`step_count < time_limit`; `0 ≤ step_count`
+is part of `Consistent`) with any action 0..3 (legal or not) emits an observation inside `obsBounds cfg` —
+including the terminal step, where `step_count = time_limit` -/
+theorem sokoban_step_obs_in_bounds (rnd : Rat → Rat) (cfg : Cfg) (s : State) (a : Nat) (ha : a < 4)
+    (hc : Consistent cfg.n s) (h1 : s.stepCount < cfg.timeLimit) :
+    ObsInBounds cfg (step rnd cfg s a).2.obs := Sokoban.step_obs_in_bounds rnd cfg s a ha hc h1
+
+example : Consistent 3 ⟨[[1,2,2],[0,2,2],[0,0,0]], [[0,4,4],[3,4,4],[0,0,0]], (1, 0), 0⟩ := by decide
+/-- the bound on `step_count` is attained on the step that reaches the limit, and the bound 4 on `grid` by a box -/
+example : (step id ⟨3, 1, false⟩ ⟨[[1,2,2],[0,2,2],[0,0,0]], [[0,4,4],[3,4,0],[0,4,0]], (1, 0), 0⟩ 1).2.obs.stepCount = 1 := by
+  decide +kernel
+end Props.C01
